@@ -8,6 +8,7 @@ import (
 	"fmt"
 	"math/rand"
 	"net/http/httptest"
+	"os"
 	"path/filepath"
 	"sort"
 	"strings"
@@ -781,6 +782,9 @@ func TestVerifC19(t *testing.T) {
 			}
 		}
 		nq := 28
+		if os.Getenv("VERIF_TIER") == "thorough" && id%2 == 0 {
+			nq = 45
+		}
 		if big {
 			nq = 12
 		}
